@@ -1,0 +1,88 @@
+//go:build verif
+// +build verif
+
+package srv
+
+// Contracts for the API handlers (C18, C09).  Comment-only file: it changes nothing in the build.
+//
+//@ props C18
+//@
+//@ // The handlers run on their own goroutines beside the sync routine.  Frame condition of every handler: it writes no object
+//@ // that existed before the call (no field of the node, no package-level variable, nothing reachable from them); whatever it
+//@ // fills is its own (parameter struct, result).  A handler with an empty frame cannot change what the sync routine computes.
+//@
+//@ // decodes the request into the caller's own parameter value (assumed: writes only through that argument)
+//@ func validate
+//@   trusted
+//@   modifies fresh-objects
+//@
+//@ func underlyingFA
+//@   trusted
+//@   pure
+//@ func (ParamsSendTransaction).Entry
+//@   trusted
+//@   pure
+//@ extern func (*github.com/Factom-Asset-Tokens/factom.EsAddress).Set
+//@   modifies *adr
+//@ extern func (*github.com/Factom-Asset-Tokens/factom.Heights).Get
+//@   modifies *h
+//@
+//@ func (*APIServer).getGlobalRichList
+//@   nopanic off
+//@   requires @wellformed s.Node != nil && s.Node.Pegnet != nil && s.Node.Sync != nil
+//@   modifies nothing
+//@
+//@ func (*APIServer).getRichList
+//@   nopanic off
+//@   requires @wellformed s.Node != nil && s.Node.Pegnet != nil && s.Node.Sync != nil
+//@   modifies nothing
+//@
+//@ func (*APIServer).getBank
+//@   nopanic off
+//@   requires @wellformed s.Node != nil && s.Node.Pegnet != nil && s.Node.Sync != nil
+//@   modifies nothing
+//@
+//@ func (*APIServer).getMiningDominance
+//@   nopanic off
+//@   requires @wellformed s.Node != nil && s.Node.Pegnet != nil && s.Node.Sync != nil
+//@   modifies nothing
+//@
+//@ func (*APIServer).getTransactionStatus
+//@   nopanic off
+//@   requires @wellformed s.Node != nil && s.Node.Pegnet != nil && s.Node.Sync != nil
+//@   modifies nothing
+//@
+//@ func (*APIServer).getPegnetBalances
+//@   nopanic off
+//@   requires @wellformed s.Node != nil && s.Node.Pegnet != nil && s.Node.Sync != nil
+//@   modifies nothing
+//@
+//@ func (*APIServer).getPegnetIssuance
+//@   nopanic off
+//@   requires @wellformed s.Node != nil && s.Node.Pegnet != nil && s.Node.Sync != nil
+//@   modifies nothing
+//@
+//@ func (*APIServer).getPegnetRates
+//@   nopanic off
+//@   requires @wellformed s.Node != nil && s.Node.Pegnet != nil && s.Node.Sync != nil
+//@   modifies nothing
+//@
+//@ func (*APIServer).getSyncStatus
+//@   nopanic off
+//@   requires @wellformed s.Node != nil && s.Node.Pegnet != nil && s.Node.Sync != nil
+//@   modifies nothing
+//@
+//@ func (*APIServer).getGraded
+//@   nopanic off
+//@   requires @wellformed s.Node != nil && s.Node.Pegnet != nil && s.Node.Sync != nil
+//@   modifies nothing
+//@
+//@ func (*APIServer).sendTransaction
+//@   nopanic off
+//@   requires @wellformed s.Node != nil && s.Node.Pegnet != nil && s.Node.Sync != nil
+//@   modifies nothing
+//@
+//@ func (APIServer).properties
+//@   nopanic off
+//@   modifies nothing
+//@
